@@ -14,7 +14,7 @@ H = 'C12_roundtrip.py'
 
 
 def obligations(thorough):
-    T = 900 if thorough else 200
+    T = 900 if thorough else 300
     base = dict(VH_STRLEN=4 if thorough else 3, VH_MAXN=3 if thorough else 2, VH_NU=4 if thorough else 2,
                 VH_NK=3 if thorough else 2)
     obs = []
